@@ -30,8 +30,8 @@ func C09(r *core.Report) {
 	c09ListingOrder(r)
 	c09SnapshotSelfChecked(r)
 	r.Floor("C09.R1", 4)
-	r.Floor("C09.R2", 40)
-	r.Floor("C09.R4", 15)
+	r.Floor("C09.R2", 25)
+	r.Floor("C09.R4", 8)
 	r.Floor("C09.R5", 2)
 }
 
